@@ -55,7 +55,15 @@ def _elementwise(name):
         if isinstance(x, _np.ndarray) and x.dtype == object:
             r = _np.frompyfunc(f, 1, 1)(x)
             if name in core._CMP:
-                r = r.astype(bool)
+                # (a 0-d object array comes back as a bare python object)
+                r = r.astype(bool) if isinstance(r, _np.ndarray) else _np.bool_(bool(r))
+            out = kw.get("out")
+            if isinstance(out, tuple):
+                out = out[0] if out else None
+            if isinstance(out, _np.ndarray):
+                # in-place form np.f(x, out=y): numpy writes into y (possibly x itself)
+                out[...] = r
+                return out
             return r
         if isinstance(x, (list, tuple)):
             a = _np.asarray(x)
@@ -121,7 +129,9 @@ class NP:
         return self._alloc(_np.ones, shape, dtype, 1.0)
 
     def empty(self, shape, dtype=None, **kw):
-        return self._alloc(_np.empty, shape, dtype, 0.0)
+        # np.empty promises nothing about the contents: poison them, so that an element the code
+        # forgets to write is visible (NaN) instead of looking like a legitimate 0.0
+        return self._alloc(_np.empty, shape, dtype, float("nan"))
 
     def full(self, shape, fill_value, dtype=None, **kw):
         if isinstance(fill_value, Sym) or self._object_alloc and dtype in (None, float):
@@ -146,6 +156,23 @@ class NP:
 
     def isscalar(self, x):
         return isinstance(x, Sym) or _np.isscalar(x)
+
+    def isclose(self, a, b, rtol=1e-05, atol=1e-08, equal_nan=False):
+        """numpy's definition |a - b| <= atol + rtol |b|, decided eagerly element by element"""
+        if not (_is_obj(a) or _is_obj(b)):
+            return _np.isclose(a, b, rtol=rtol, atol=atol, equal_nan=equal_nan)
+        A, B = _np.broadcast_arrays(_np.asarray(a, dtype=object), _np.asarray(b, dtype=object))
+        out = _np.empty(A.shape, dtype=bool)
+        for idx in _np.ndindex(*A.shape):
+            x, y = A[idx], B[idx]
+            d = x - y
+            ad = abs(d) if not isinstance(d, Sym) else (d if bool(d >= 0) else -d)
+            ay = abs(y) if not isinstance(y, Sym) else (y if bool(y >= 0) else -y)
+            out[idx] = bool(ad <= atol + rtol * ay)
+        return out if out.ndim else _np.bool_(out[()])
+
+    def allclose(self, a, b, rtol=1e-05, atol=1e-08, equal_nan=False):
+        return bool(_np.all(self.isclose(a, b, rtol=rtol, atol=atol, equal_nan=equal_nan)))
 
     def all(self, a, *args, **kw):
         return _np.all(_np.asarray(a).astype(bool) if _is_obj(_np.asarray(a)) else a, *args, **kw)
